@@ -344,6 +344,18 @@ class Models:
                 out.append((s2, c.I.wrap_or_keep(s2, a.form.neg(), a.ty)))
             return out
 
+        @regp(r'^core::num::<impl i\d+>::signum$')
+        def signum(c):
+            a = c.args[0]
+            out = []
+            for s2 in c.I.assume(c.st.copy(), ('cmp', 'gt', a.form, Form.const(0)), True):
+                out.append((s2, c.I.cint(1, a.ty)))
+            for s2 in c.I.assume(c.st.copy(), ('cmp', 'eq', a.form, Form.const(0)), True):
+                out.append((s2, c.I.cint(0, a.ty)))
+            for s2 in c.I.assume(c.st.copy(), ('cmp', 'lt', a.form, Form.const(0)), True):
+                out.append((s2, c.I.cint(-1, a.ty)))
+            return out
+
         @regp(r'^core::num::<impl i\d+>::unsigned_abs$')
         def uabs(c):
             a = c.args[0]
